@@ -104,6 +104,28 @@ Definition status_at (s : state) (e : N) (c : cid) (o : oid) : status :=
   | Some b => status_in b e o
   end.
 
+(* ---- the known class of C01 (known_findings.txt, key tombstone-and-live-lock):
+   the object, or an ancestor it inherits from, is both tombstoned and
+   protected by a live lock.  The implementation reports such an object as
+   available, the statement says a lock overrides expiry and garbage marks only. *)
+Definition tomb_locked (b : cstate) (e : N) (o : oid) : bool := tombstoned b o && live_lock b e o.
+
+Fixpoint excluded_k (k : nat) (b : cstate) (e : N) (o : oid) : bool :=
+  tomb_locked b e o ||
+  match direct b e o with
+  | Removed | Expired => false
+  | _ => match parent_of b o, k with
+         | Some p, S k' => excluded_k k' b e p
+         | _, _ => false
+         end
+  end.
+
+Definition excluded (s : state) (e : N) (c : cid) (o : oid) : bool :=
+  match sm_get c (cnrs s) with
+  | Some b => negb (cgc b) && excluded_k max_nesting b e o
+  | None => false
+  end.
+
 (* ---- listing: omits exactly the objects marked for removal *)
 Definition marked_for_removal (b : cstate) (o : oid) : bool := tombstoned b o || marked b o.
 
